@@ -63,6 +63,8 @@ def gen_case(g):
     case = {"fn": rng.choice(FUNCS), "operands": ops}
     if rng.random() < 0.08:
         case["prefix"] = rng.choice(["var", "x", "zz"])
+    if count >= 2 and rng.random() < 0.2:
+        case["pre"] = rng.choice(["align_exponents", "align_indeterminants", "align_exponents"])
     if rng.random() < 0.3:
         # alignment forces the retain flags: the global options must not matter
         case["options"] = {"retain_names": rng.random() < 0.4, "retain_coefficients": rng.random() < 0.5}
@@ -153,6 +155,17 @@ def run_case(case, ctx):
     ctx.count(fn)
     facts = {"op": fn, "arity": len(specs), "kinds": "|".join(f["kind"] for f in feats),
              "view": any(f.get("view") for f in feats)}
+    pre = case.get("pre")
+    if pre:
+        # the operands went through another alignment function first (its outputs keep whatever
+        # that function does not align, e.g. different shapes after align_exponents)
+        facts["pre"] = pre
+        ctx.count("pre_aligned_cases")
+        try:
+            real = list(getattr(numpoly, pre)(*real))
+        except Exception as perr:  # pylint: disable=broad-except
+            O.report_exception(ctx, dict(facts, failure_in="pre"), perr, case, what=pre)
+            return
     before = [snapshot(r) for r in real]
     options = case.get("options") or {}
     facts["options"] = ",".join(f"{k}={v}" for k, v in sorted(options.items()))
@@ -249,6 +262,30 @@ def run_case(case, ctx):
         facts["failure"] = "idempotence"
         ctx.violation(facts, f"{fn}: aligning aligned arguments changed outputs {which}: "
                              f"{[ (first[i][:4], second[i][:4]) for i in which][:2]}", case)
+        return
+    # outputs made from plain numbers / lists / arrays are new objects of the caller: writing into
+    # them must not change what the next alignment of the same inputs returns
+    fresh = [i for i, spec in enumerate(specs) if spec["k"] in ("py", "np", "list", "arr")]
+    if fresh and not pre:
+        for i in fresh:
+            raw = out[i].values
+            if raw.flags.writeable:
+                for key in raw.dtype.names:
+                    raw[key] = 77
+        ctx.count("outputs_overwritten")
+        third, err3 = O.call_guard(getattr(numpoly, fn), *real)
+        if err3 is not None:
+            O.report_exception(ctx, dict(facts, rider="after_write"), err3, case,
+                               what=f"{fn} after writing into earlier outputs")
+            return
+        for i in fresh:
+            want = numpy.broadcast_to(mods[i], common) if aligns_shape else mods[i]
+            problem = O.mismatch(third[i], want)
+            if problem is not None:
+                ctx.violation(dict(facts, failure="aliased_result", rider="after_write"),
+                              f"{fn}: after writing into the output made from operand {i}, aligning "
+                              f"the same inputs again gives {problem[1]}", case)
+                return
 
 
 def run(spec, ctx):
